@@ -29,6 +29,35 @@ reg("C01", "exploration",
     "Hypothesis property-based testing against a reference agent + metamorphic order-independence + small-scope enumeration",
     "DESIGN.md section 3, C01")
 
+reg("C02", "exploration",
+    "Generated-input search, differential and absolute: bulkwalk (bulk sizes 1..50, weighted around subtree "
+    "sizes) against the reference agent under generated conformant GETBULK truncation scripts is compared with "
+    "the GETNEXT multiwalk of the same roots on a fresh agent AND with the agent's database (so both walks being "
+    "wrong the same way is still caught). Thorough adds the exhaustive small scope x bulk 1..4 x 3 truncation policies.",
+    "Trusts lib/vagent.py's GETBULK (RFC 3416 4.2.3) incl. truncation; instances equal to a root are ignored in the differential half.",
+    "Hypothesis differential testing (bulkwalk vs multiwalk) + absolute oracle from the agent database + small-scope enumeration",
+    "DESIGN.md section 3, C02")
+
+reg("C03", "fault_enumeration",
+    "Fault enumeration over agent misbehaviour: the agent is a generated total function (requested OID, repetition "
+    "index) -> OID | endOfMibView on a finite universe (identity, smaller, cycles, out-and-back-in, early "
+    "endOfMibView, honest with drawn defects, fully random). Oracle: a hard request cap (non-termination is observed "
+    "as a count, not a timeout), no OID requested twice, #requests <= #revealed + #roots + 1, outcome in {normal end, "
+    "FaultySNMPImplementation}, and an ideal-walker simulation that fixes the required outcome and delivered prefix "
+    "for repetition-independent functions. Thorough enumerates all 5^5 functions on two 4-OID universes x 7 operation/mode/bulk settings.",
+    "The bound is deliberately loose; for repetition-dependent functions only termination/no-re-request/bound/outcome class are asserted.",
+    "fault enumeration with generated function agents (Hypothesis) + exhaustive enumeration of all functions on small universes",
+    "DESIGN.md section 3, C03")
+
+reg("C04", "exploration",
+    "Generated-input search: every request-style operation (get, multiget, getnext, multigetnext, set, multiset, "
+    "bulkget) over generated databases, OID lists with duplicates / absent objects / end-of-view objects, SET values "
+    "of every type and GETBULK splits, under v1, v2c and v3 at three levels; the oracle is the reference agent's own "
+    "answer and its database state after SET; binding-count perturbations (+fresh, +duplicate, -last) must be refused with SnmpError.",
+    "Trusts lib/vagent.py for v1/v2c/v3 GET/GETNEXT/SET/GETBULK semantics; any SnmpError subclass counts as refusal.",
+    "Hypothesis property-based testing against a reference agent with response-count perturbation",
+    "DESIGN.md section 3, C04")
+
 
 def main():
     present = sorted(os.path.basename(p)[:3].upper()
